@@ -297,8 +297,9 @@ func c08c(c *Ctx) {
 			return false
 		}
 		for _, pair := range [][2]ast.Expr{{sum.X, sum.Y}, {sum.Y, sum.X}} {
-			_, p, okW := fieldPath(info, stripConv(info, pair[1]))
-			if !okW || len(p) != 1 || p[0] != "W" {
+			// <tile>.W, whatever expression names the tile (a variable, an element of the edge-tile map)
+			wsel, okW := ast.Unparen(stripConv(info, pair[1])).(*ast.SelectorExpr)
+			if !okW || wsel.Sel.Name != "W" {
 				continue
 			}
 			st := f.ResolveDeep(pair[0])
